@@ -45,7 +45,10 @@ type replySpec struct {
 	PauseMs int    `json:"pause_ms_between_writes,omitempty"` // slow stream: the proxy's periodic flusher ticks while the body is being relayed
 	Ann     []hdr  `json:"announced_trailers,omitempty"`
 	Unann   []hdr  `json:"unannounced_trailers,omitempty"`
-	body    []byte
+	// CutAt > 0: the backend dies in the middle of its reply: after the
+	// head and that many body bytes the connection is reset.
+	CutAt int `json:"connection_reset_after_body_bytes,omitempty"`
+	body  []byte
 }
 
 func sum(b []byte) string {
@@ -315,6 +318,23 @@ func writeReply(cn net.Conn, method string, sp *replySpec) (closeAfter bool, err
 	b.WriteString("\r\n")
 	if _, err = cn.Write(b.Bytes()); err != nil || nobody {
 		return
+	}
+	if sp.CutAt > 0 && sp.CutAt < len(body) {
+		piece := body[:sp.CutAt]
+		if framing == "chunked" {
+			var cb bytes.Buffer
+			fmt.Fprintf(&cb, "%x\r\n", len(piece))
+			cb.Write(piece)
+			cb.WriteString("\r\n")
+			cn.Write(cb.Bytes())
+		} else {
+			cn.Write(piece)
+		}
+		time.Sleep(30 * time.Millisecond) // let the proxy relay what it has
+		if tc, ok := cn.(*net.TCPConn); ok {
+			tc.SetLinger(0)
+		}
+		return true, fmt.Errorf("scripted death in mid-reply")
 	}
 	writes := sp.Writes
 	if len(writes) == 0 {
